@@ -1,6 +1,7 @@
 /* vh.c -- common harness runtime (see vh.h) */
 #define _GNU_SOURCE
 #include "vh.h"
+#include <soundswallower/err.h>
 #include <errno.h>
 #include <signal.h>
 #include <sys/stat.h>
@@ -309,6 +310,13 @@ static void rm_rf(const char *path)
     }
 }
 
+#ifdef VH_COV
+extern void __gcov_dump(void);
+#define VH_COV_DUMP() __gcov_dump()
+#else
+#define VH_COV_DUMP() ((void)0)
+#endif
+
 static void on_exit_handler(void)
 {
     if (vh_out) fflush(vh_out);
@@ -319,6 +327,7 @@ static void on_exit_handler(void)
             __sanitizer_print_stack_trace();
         dump_counters_fd();
         if (vh_tmp[0]) rm_rf(vh_tmp);
+        VH_COV_DUMP();
         _exit(97);
     }
 }
@@ -340,6 +349,15 @@ static void on_alarm(int sig)
     dump_counters_fd();
     _exit(98);
 }
+
+static void log_sink_cb(void *user, err_lvl_t lvl, const char *msg)
+{
+    static volatile size_t total; (void)user; (void)lvl;
+    if (msg) total += strlen(msg);
+    if (msg && lvl >= ERR_FATAL) fputs(msg, stderr);   /* the driver names an exit() after the fatal message */
+    vh_count("library_log_messages_formatted", 1);
+}
+void vh_log_sink(int level) { err_set_callback(log_sink_cb, NULL); err_set_loglevel((err_lvl_t)level); }
 
 const char *vh_tmpdir(void)
 {
@@ -519,5 +537,6 @@ int vh_main(int argc, char **argv, const vh_harness *h)
     fflush(vh_out);
     if (vh_tmp[0]) rm_rf(vh_tmp);
     fflush(stderr);
+    VH_COV_DUMP();
     _exit(0);
 }
